@@ -72,10 +72,90 @@ fn run_one(f: &jaq_all::data::Filter, input: &MVal) -> Vec<OutM> {
     jq::run(f, vec![MVal::Null.to_val()], input.to_val(), LIMIT).iter().map(OutM::from_out).collect()
 }
 
+/// Programs that would interfere through state kept per process (a cache keyed too coarsely, a lazily
+/// initialised table shared by two filters): the same native filter with different flags or arguments,
+/// and the two directions of every codec.
+const FAMILIES: &[&[&str]] = &[
+    &["\"ab\" | test(\"a b\")", "\"ab\" | test(\"a b\"; \"x\")", "\"a b\" | test(\"a b\"; \"x\")", "\"A B\" | test(\"a b\"; \"i\")", "\"A B\" | test(\"a b\"; \"ix\")", "\"a\\nb\" | test(\"a.b\"; \"s\")", "\"a\\nb\" | test(\"a.b\")", "\"a\\nb\" | [match(\"^b\"; \"g\").offset]", "\"a\\nb\" | [match(\"^b\"; \"gm\").offset]", "\"aaa\" | [match(\"a+\"; \"g\").length]", "\"aaa\" | [match(\"a+\"; \"gl\").length]", "\"aaa\" | sub(\"a\"; \"b\")", "\"aaa\" | sub(\"a\"; \"b\"; \"g\")", "\"aXbxc\" | [splits(\"x\")]", "\"aXbxc\" | [splits(\"x\"; \"i\")]"],
+    &["\"<&>\" | @html", "\"&lt;p&gt;\" | @htmld", "\"<&>\" | @html | @htmld", "\"&amp;lt;\" | @htmld", "\"'\\\"\" | @html"],
+    &["\"a b/c\" | @uri", "\"a%20b%2Fc\" | @urid", "\"%25\" | @urid | @uri"],
+    &["\"hi\" | @base64", "\"aGk=\" | @base64d", "\"hi\" | @base32", "\"NBUQ====\" | @base32d"],
+    &["[1, \"a b\"] | @sh", "[1, \"a,b\"] | @csv", "[1, \"a\\tb\"] | @tsv", "[1, \"a\"] | @json", "[1, \"a\"] | @text"],
+    &["0 | strftime(\"%Y-%m-%d\")", "0 | strftime(\"%H:%M\")", "\"1970-01-02\" | strptime(\"%Y-%m-%d\") | mktime", "\"02.01.1970\" | strptime(\"%d.%m.%Y\") | mktime", "86400 | todate", "\"1970-01-02T00:00:00Z\" | fromdate"],
+    &["\"aXb\" | ascii_downcase", "\"aXb\" | ascii_upcase", "\"  a \" | ltrimstr(\" \")", "\"  a \" | rtrimstr(\" \")", "\"  a \" | trim", "\"  a \" | ltrim", "\"  a \" | rtrim"],
+    &["[3, 1, 2] | sort", "[3, 1, 2] | sort_by(-.)", "[{\"a\": 2}, {\"a\": 1}] | group_by(.a)", "[3, 1, 2] | min_by(-.)", "[1, 1, 2] | unique", "{\"b\": 1, \"a\": 2} | keys", "{\"b\": 1, \"a\": 2} | keys_unsorted", "{\"b\": 1, \"a\": 2} | tojson", "{\"b\": 1, \"a\": 2} | tojson | fromjson | keys_unsorted"],
+    &["[1, [2]] | toyaml", "\"a: 1\" | fromyaml", "{\"a\": 1} | totoml", "\"a = 1\" | fromtoml", "\"<a>t</a>\" | fromxml | toxml", "\"a,b\\n\" | [fromcsv]", "\"a\\tb\\n\" | [fromtsv]"],
+];
+
+/// What a program yields in a process of its own (the jaq binary, one process per program).
+fn in_fresh_process(prog: &str) -> Result<String, String> {
+    let out = vcore::cli::Cmd::jaq().args(["-nc", &format!("[{prog}]")]).run().map_err(|e| e.to_string())?;
+    if out.status != 0 {
+        return Ok(format!("ERROR exit {}", out.status));
+    }
+    Ok(out.out_str().trim().to_string())
+}
+
+fn in_this_process(prog: &str) -> String {
+    match jq::eval(&format!("[{prog}]"), &[], jaq_json::Val::Null, 2) {
+        Ok(outs) => match outs.first() {
+            Some(jq::Out::Val(v)) => format!("{v}"),
+            _ => "ERROR exit 5".to_string(),
+        },
+        Err(_) => "ERROR exit 3".to_string(),
+    }
+}
+
+/// Every program of a family is run in a process of its own (expected result), then all of them in
+/// this one process: in the order of the family, in reverse order, and from 8 threads at once. No result
+/// may depend on what else the process has run.
+fn process_wide_state(i: usize) -> vcore::runner::CaseResult {
+    let fam = FAMILIES[i % FAMILIES.len()];
+    let reverse = i >= FAMILIES.len();
+    let case = |p: &str, want: &str, got: &str, how: &str| json!({"program": p, "in_a_process_of_its_own": want, "in_a_process_that_also_ran_the_others": got, "others": fam, "how": how});
+    let mut want = Vec::new();
+    for p in fam.iter() {
+        want.push(in_fresh_process(p).map_err(|e| CaseFail::new("harness-spawn", e, json!({})))?);
+    }
+    let order: Vec<usize> = if reverse { (0..fam.len()).rev().collect() } else { (0..fam.len()).collect() };
+    for round in 0..2 {
+        for &k in &order {
+            let got = in_this_process(fam[k]);
+            if got != want[k] {
+                return Err(CaseFail::new("result-depends-on-what-else-the-process-ran", format!("`{}` gives {} in a process of its own, {} here (round {round}, {} order)", fam[k], want[k], got, if reverse { "reverse" } else { "given" }), case(fam[k], &want[k], &got, "sequentially")));
+            }
+        }
+    }
+    // concurrently
+    let bad = std::sync::Mutex::new(None::<(usize, String)>);
+    std::thread::scope(|sc| {
+        for t in 0..8usize {
+            let (bad, want) = (&bad, &want);
+            sc.spawn(move || {
+                for r in 0..6 {
+                    for j in 0..fam.len() {
+                        let k = (j * 7 + t * 3 + r) % fam.len();
+                        let got = in_this_process(fam[k]);
+                        if got != want[k] {
+                            *bad.lock().unwrap() = Some((k, got));
+                            return;
+                        }
+                    }
+                }
+            });
+        }
+    });
+    if let Some((k, got)) = bad.into_inner().unwrap() {
+        return Err(CaseFail::new("result-depends-on-what-else-the-process-ran", format!("`{}` gives {} in a process of its own, {} when run concurrently with the others", fam[k], want[k], got), case(fam[k], &want[k], &got, "8 threads")));
+    }
+    Ok(CaseOk::new(true, 9_000_000 + i as u64).class("family-of-programs-sharing-a-native-filter").bundle((fam.len() * (1 + 2 + 48)) as u64, (0..fam.len() as u64).map(|k| 9_000_000 + (i as u64) * 100 + k).collect()).desc(Some(json!({"programs": fam, "order": if reverse { "reverse" } else { "given" }}))))
+}
+
 pub fn run(mut rep: Report) -> ! {
     rep.set_level("exploration");
     rep.set_rule(
         "batches of compiled filters (16 label-, closure-, fold- and iterator-heavy templates with hundreds of label bindings per run, plus programs of the C01 generator without clock/environment/input access) x generated inputs: every (filter, input) is first run alone on one thread (twice: determinism), then all pairs are run from T in {2, 4, 16, 48} threads x R repetitions that share the compiled filters by reference, in per-thread shuffled order behind a barrier, while further threads keep compiling other (also ill-formed) programs; each concurrent output stream (<= 40 items incl. the terminating error) must equal the isolated one; \
+         process-wide state: 9 families of programs that use the same native filter with different flags or arguments, or the two directions of a codec (regex flags x/i/s/m/g/l on one pattern, @html/@htmld, @uri/@urid, @base64/@base64d/@base32/@base32d, the other @formats, strftime/strptime formats, trimming and case filters, sort/group/keys/tojson, the format readers and writers): every program is run by the jaq binary in a process of its own (expected result), then all programs of the family in this one process - in order, in reverse order, twice, and from 8 threads at once; no result may depend on what else the process has run; \
          non-trivial = the filter yields >= 2 outputs or an error and at least two threads were inside filter runs at the same time (measured with an in-flight counter); distinct by (program, input); static part: Filter and Lut are Send + Sync (compile-time assertion)",
     );
     rep.assume("schedules are those the operating system produces on 16 cores; this family cannot enumerate interleavings of uninstrumented std code");
@@ -258,6 +338,7 @@ pub fn run(mut rep: Report) -> ! {
             }
         },
     };
+    rep.fixed("process-wide-state", 2 * FAMILIES.len(), process_wide_state);
     rep.fixed("thread-safe-values", 1, |_| match &sync_result {
         Err(f) => Err(f.clone()),
         Ok(n) => Ok(CaseOk::new(false, 0).class("shared-values").desc(Some(json!({"what": "19 filters x 12 values shared between 2/16/48 threads (Arc-based Val), every run compared with the isolated run; Val, Map, Error<Val>, Filter, Lut statically Send + Sync", "concurrent_runs": n}))).bundle(*n, (0..228u64).map(|k| k + 7_000_000).collect())),
